@@ -242,6 +242,14 @@ pub fn exchange(rng: &mut Rng, tier: &str, ccfg: ClientSessionConfig, scfg: Serv
                 1 | 2 => { let n = *rng.pick(&lens); Item::Audio(ts, media_data(rng, n)) }
                 _ => { let n = *rng.pick(&lens); Item::Video(ts, media_data(rng, n)) }
             };
+            // now and then the application first tries something the session must REFUSE (metadata whose encoder name no AMF0 string
+            // can hold; a call of the other role's workflow): a refusal sends nothing and must not disturb what is sent next
+            if rng.chance(1, 5) {
+                let mut bad = gen_meta(rng);
+                bad.encoder = Some("e".repeat(70000));
+                let refused = if publish { wld.c.publish_metadata(&bad).is_err() } else { wld.s.send_metadata(wld.play_sid.unwrap_or(1), &bad).is_err() };
+                wld.log.push(json!({"ev":"Refused","what":"metadata with a 70000-byte encoder name","refused":refused}));
+            }
             let mut ij = item_json(&item);
             ij["ev"] = json!("Send");
             // the sender may mark media as droppable; the transport here never drops anything, so every item must still arrive
